@@ -33,6 +33,13 @@ CHECKS = {
         note="Trusts the protocol model in vf/props/c12.py; custom setter/deleter are modelled as writes to the underlying state.",
         ref="DESIGN.md section 4, C12",
     ),
+    "C18": dict(
+        level="exploration",
+        technique="model-based testing: exhaustive op-sequence enumeration to a length bound + Hypothesis op sequences against a two-variable (target, override) model; generated path strings (Hypothesis/atheris) vs Python eval",
+        text="768 alias configurations (passthrough x transform x fallback x 8 path shapes x plain/spec host x Alias/DeprecatedAlias, target initially present or missing) are driven through every op sequence up to the bound (quick 3, thorough 4) and Hypothesis sequences up to 30 ops in lock-step with a (target, override) model, including freshness of fallback copies, typed writes on the spec host, copies carrying the override and deprecation warnings; the path parser is compared with eval on generated path strings. Exhaustive to the bound, sampled beyond.",
+        note="Trusts the two-variable model in vf/props/c18.py; path strings the parser rejects with ValueError are accepted as rejected (the statement only constrains accepted paths).",
+        ref="DESIGN.md section 4, C18",
+    ),
 }
 
 NOT_YET = "check not built yet in this revision (see DESIGN.md section 9 for the order); nothing is claimed"
